@@ -5,7 +5,7 @@
   predicate.  The invariants of `CoreLevInv` are instances.
 -/
 import DymVerif.Lemmas.CoreLevBasic
-namespace DymVerif.Core
+namespace DymVerif.Core.LevNs
 
 /-- the parts of the state the liveness invariants read are equal -/
 def SameL (s s' : St) : Prop := s'.ras = s.ras ∧ s'.lev = s.lev ∧ s'.h = s.h ∧ s'.p = s.p
@@ -399,7 +399,7 @@ theorem markObsolete_cl (hc : LClosed P) {s s' : St} {au : Bool} {vs : List Nat}
             · exact hb
 
 /-- the op is a message (not a block boundary) -/
-def Op.isMsg : Op → Bool
+def _root_.DymVerif.Core.Op.isMsg : Op → Bool
   | .begin_ _ => false
   | .end_ _ => false
   | _ => true
@@ -512,4 +512,4 @@ theorem finalizeRollappStates_cl (hc : LClosed P) {s : St} {fails : List (Nat ×
 
 end
 
-end DymVerif.Core
+end DymVerif.Core.LevNs
